@@ -52,10 +52,26 @@ static void run_solo(const Plan &plan, Solo &s, int only_task = -1, bool renew =
 struct Mismatch {
     int task = -1, op = -1;
 };
+// Some call of the plan allocates inside a one-time initialiser: whoever gets there first makes those requests, so the
+// request ordinals of the other calls differ between "alone" and "interleaved". A call with an allocation failure
+// attached (addressed by ordinal) is then not comparable, nor are the calls after it in its task (whole-memory digests).
+static bool once_alloc_plan(const Solo &solo) {
+    for (auto &tr : solo.res)
+        for (auto &r : tr)
+            if (r.once_allocs) return true;
+    return false;
+}
+static bool comparable(const Plan &plan, const Solo &solo, size_t t, size_t o) {
+    if (!once_alloc_plan(solo)) return true;
+    for (size_t i = 0; i <= o && i < plan.tasks[t].ops.size(); i++)
+        if (plan.tasks[t].ops[i].f.alloc_k || plan.tasks[t].ops[i].f.alloc_mask) return false;
+    return true;
+}
 static bool first_mismatch(const Plan &plan, const Solo &solo, const PassResult &pr, Mismatch &m, int only_fn = -1) {
     for (size_t t = 0; t < plan.tasks.size(); t++) {
         if (solo.res[t].empty()) continue;
         for (size_t o = 0; o < plan.tasks[t].ops.size(); o++) {
+            if (!comparable(plan, solo, t, o)) break;
             if (only_fn >= 0 && plan.tasks[t].ops[o].fn != only_fn) continue;
             if (!pr.res[t][o].done || pr.res[t][o].digest != solo.res[t][o].digest) {
                 m.task = (int)t;
@@ -161,6 +177,7 @@ static bool still_fails(const Plan &plan, const Schedule &sched, const std::stri
         for (size_t o = 0; o < plan.tasks[t].ops.size(); o++) {
             if (fn >= 0 && plan.tasks[t].ops[o].fn != fn) continue;
             if (pr.res[t][o].digest == solo.res[t][o].digest) continue;
+            if (!comparable(plan, solo, t, o)) continue;
             Mismatch m;
             m.task = (int)t;
             m.op = (int)o;
